@@ -155,14 +155,18 @@ theorem inv_acknowledge (s : State) (rb : Nat) (h : Inv s) : ∀ s', acknowledge
   simp only at he
   split at he
   · simp only [Except.ok.injEq] at he; subst he; exact h
-  · exact inv_ackLoop _ s rb h s' he
+  · split at he
+    · simp only [Except.ok.injEq] at he; subst he; exact h
+    · exact inv_ackLoop _ s rb h s' he
 
 theorem acknowledge_no_overflow (s : State) (rb : Nat) (h : Inv s) : acknowledge s rb ≠ .error .overflow := by
   unfold acknowledge
   simp only
   split
   · simp
-  · exact ackLoop_no_overflow _ s rb h
+  · split
+    · simp
+    · exact ackLoop_no_overflow _ s rb h
 
 theorem inv_ackFragment (s : State) (u f : Nat) (h : Inv s) : Inv (ackFragment s u f) := by
   obtain ⟨h1, h2⟩ := h
